@@ -55,8 +55,8 @@ Theorem C05_mux_token_roundtrip :
 Proof. exact mux_roundtrip. Qed.
 Print Assumptions C05_mux_token_roundtrip.
 
-(* names of any length within one scope (ECUs of a matrix, frames of a matrix, signals of a frame, environment variables):
-   shortened to 32 characters + System*LongSymbol attribute, restored by the reader.
+(* names of any length within one scope where objects are addressed by their shortened name (ECUs, environment variables; signals
+   of a frame when no two shortened names collide): shortened to 32 characters + System*LongSymbol attribute, restored by the reader.
    Premise, stated not hidden: the 32-character prefixes are unique within the scope. *)
 Theorem C05_long_name_roundtrip :
   forall ns, NoDup (map short_name ns) -> r_names (w_short_names ns) (w_long_attrs ns) = ns.
@@ -72,6 +72,34 @@ Proof.
   - rewrite long_names_need_unique_prefixes. vm_compute. discriminate.
 Qed.
 Print Assumptions C05_long_name_roundtrip_needs_unique_prefixes.
+
+(* Signals of one frame: dump disambiguates colliding shortened names by a numeric suffix on the SG_ symbol, so names that SHARE
+   their first 32 characters survive as well.  Premises, stated not hidden: the suffixed symbols are pairwise distinct, and a name
+   of at most 32 characters does not collide with another shortened name (it would keep the suffix: no attribute is written
+   for it - C05_suffixed_needs_long_names, a recorded finding).  Frames are addressed by identifier (C05_long_name_roundtrip on a
+   one-element scope); ECUs and environment variables have no disambiguation (C05_long_name_roundtrip as it stands). *)
+Theorem C05_long_name_roundtrip_suffixed :
+  forall ns, NoDup (w_out_names ns) ->
+    (forall n, In n ns -> is_long n = false -> count_name (short_name n) (map short_name ns) = 1%nat) ->
+    r_names (w_out_names ns) (w_out_attrs ns) = ns.
+Proof. exact suffixed_names_roundtrip. Qed.
+Print Assumptions C05_long_name_roundtrip_suffixed.
+
+(* the two 33-character names with a common 32-character prefix, lost without the suffix, survive with it *)
+Theorem C05_suffixed_shared_prefix_survives :
+  r_names (w_out_names [clash_a; clash_b]) (w_out_attrs [clash_a; clash_b]) = [clash_a; clash_b].
+Proof. exact suffixed_clash_ok. Qed.
+Print Assumptions C05_suffixed_shared_prefix_survives.
+
+Theorem C05_suffixed_needs_long_names :
+  exists ns, NoDup ns /\ NoDup (w_out_names ns) /\ r_names (w_out_names ns) (w_out_attrs ns) <> ns.
+Proof.
+  exists [repeat 65 32; clash_a]. split; [|split].
+  - constructor; [intros [H|[]]; vm_compute in H; discriminate | constructor; [intros []|constructor]].
+  - vm_compute. constructor; [intros [H|[]]; discriminate | constructor; [intros []|constructor]].
+  - rewrite suffixed_needs_long_names. vm_compute. discriminate.
+Qed.
+Print Assumptions C05_suffixed_needs_long_names.
 
 (* ENUM attribute values: value -> key (index as decimal text) -> value, for every value of the define's list *)
 Theorem C05_enum_keys_values_roundtrip :
